@@ -92,7 +92,9 @@ def generate(seed, idx, tier):
     entries = ('wrg', 'wrg-iter') if handle == 'long' else \
         ('write', 'write', 'wrg', 'wrg-iter')
     ops = []
-    f0 = gen_frame_spec(rng, shape, 0, permute=False)
+    # (column order of the dataset itself varies too: the row id is not
+    # always the first column of the schema)
+    f0 = gen_frame_spec(rng, shape, 0, permute=True)
     op = {'op': 'write', 'frame': f0}
     op.update(gen_wopts(rng, f0['nrows'], has_cat, knobs))
     op['has_nulls'] = gen_has_nulls(rng, shape)
